@@ -332,3 +332,58 @@ func init() {
 			return false, ""
 		})
 }
+
+func init() {
+	registerKF("f13-aggregates-ignore-presence", "C04",
+		"Sum/Avg/Min/Max run over every selected row and ignore whether the row holds a value in the column: absent rows count as zeros (Avg divides by all selected rows, Min/Max see phantom zeros) and stale values of deleted occupants are included",
+		func() (bool, string) {
+			c, _ := kfCollection(ColSpec{Name: "v", Kind: KInt})
+			defer c.Close()
+			c.Insert(func(r column.Row) error { r.SetInt("v", 5); return nil })
+			c.Insert(func(r column.Row) error { return nil })
+			var avg float64
+			var mn int
+			var ok bool
+			c.Query(func(txn *column.Txn) error {
+				avg = txn.Int("v").Avg()
+				mn, ok = txn.Int("v").Min()
+				return nil
+			})
+			if avg != 5 || mn != 5 || !ok {
+				return true, fmt.Sprintf("rows {v=5} and {v absent}: Avg()=%v (want 5), Min()=%d,%v (want 5,true)", avg, mn, ok)
+			}
+			return false, ""
+		})
+
+	registerKF("f14-withunion-single-widens", "C04",
+		"WithUnion with a single name on a transaction that was already narrowed behaves like Union (adds rows) instead of intersecting",
+		func() (bool, string) {
+			c, _ := kfCollection(ColSpec{Name: "a", Kind: KBool}, ColSpec{Name: "b", Kind: KBool})
+			defer c.Close()
+			c.Insert(func(r column.Row) error { r.SetBool("a", true); return nil })
+			c.Insert(func(r column.Row) error { r.SetBool("b", true); return nil })
+			c.Insert(func(r column.Row) error { return nil })
+			n := -1
+			c.Query(func(txn *column.Txn) error { n = txn.With("a").WithUnion("b").Count(); return nil })
+			if n != 0 {
+				return true, fmt.Sprintf("rows {a},{b},{}: With(a).WithUnion(b) selects %d rows, a AND (b) is empty", n)
+			}
+			return false, ""
+		})
+}
+
+func init() {
+	registerKF("f25-union-after-missing-name", "C04",
+		"a filter that names a missing column (With/WithValue/WithInt/... on an unknown or wrongly typed column) empties the selection by truncating it to length 0; a later Union or WithUnion in the same chain then cannot add rows (the union of nothing and X stays empty)",
+		func() (bool, string) {
+			c, _ := kfCollection(ColSpec{Name: "a", Kind: KBool})
+			defer c.Close()
+			c.Insert(func(r column.Row) error { r.SetBool("a", true); return nil })
+			n := -1
+			c.Query(func(txn *column.Txn) error { n = txn.With("missing").Union("a").Count(); return nil })
+			if n != 1 {
+				return true, fmt.Sprintf("one row with a=true: With(missing).Union(a) selects %d rows, set algebra gives 1", n)
+			}
+			return false, ""
+		})
+}
